@@ -55,29 +55,20 @@ def r1_typestate(ctx):
     R.check(len(sends) == 1, "C04.R1", "accept:one-response-send", "accept sends the response once", "accept has %d MethodSink::send sites" % len(sends), "%s:%d" % (acc.file, acc.lo))
     tr = ctx.tracer(follow_callers=False, follow_fields=False)
     for s in sends:
-        vl, rblk = awaited_value_local(acc, s)
+        from .common import awaited_outcome_arms
+        ok_ts, _errs = awaited_outcome_arms(acc, s)
         ok_t = None
-        if vl is not None:
-            # .map_err(..)? : the sink must be built on the Continue arm
-            for br in acc.calls_to(r"Try.*::branch$"):
-                lv = tr.origins(acc, br.args[0])
-                if any(l.kind == "call" and l.detail["bb"] == s.bb and l.where == acc.path for l in lv) or arg_is_local(acc, br.args[0], vl):
-                    for sb, arms, other in flow.switch_on(acc, br.dest["l"]):
-                        if arms.get("0") is not None:
-                            ok_t = arms.get("0")
-            if ok_t is None:
-                for sb, arms, other in flow.switch_on(acc, vl):
-                    ok_t = arms.get("0")
+        dom = lambda x: any(acc.dominates(t, x) for t in ok_ts)
         for b, bi, st in sites:
             if b.path != acc.path:
                 continue
-            R.check(ok_t is not None and acc.dominates(ok_t, bi), "C04.R1", "accept:sink-after-response-enqueued", "the sink exists only after the accept response was handed to the connection", "the SubscriptionSink is built before (or regardless of) the accept response being enqueued: a notification can overtake the response", "%s:%d" % (acc.file, st["sp"][0]))
+            R.check(dom(bi), "C04.R1", "accept:sink-after-response-enqueued", "the sink exists only after the accept response was handed to the connection", "the SubscriptionSink is built before (or regardless of) the accept response being enqueued: a notification can overtake the response", "%s:%d" % (acc.file, st["sp"][0]))
         # the internal "subscribe call answered" signal fires only once the response is on the connection queue: the
         # close task treats that signal as "accepted" and may emit the closing notification
         ones = acc.calls_to(r"oneshot::Sender::<.*>::send$")
         R.check(bool(ones), "C04.R1", "accept:internal-answer-exists", "accept answers the subscribe call internally", "accept no longer answers the subscribe call through its oneshot", "%s:%d" % (acc.file, acc.lo))
         for o in ones:
-            R.check(ok_t is not None and acc.dominates(ok_t, o.bb), "C04.R1", "accept:internal-answer-after-enqueue", "the subscribe call is reported answered only after the response was handed to the connection", "accept reports the subscribe call as answered before the response is handed to the connection: if the connection queue is full and the handler abandons accept(), the close task sends a closing notification for a subscription whose accept response was never sent", where(o))
+            R.check(dom(o.bb), "C04.R1", "accept:internal-answer-after-enqueue", "the subscribe call is reported answered only after the response was handed to the connection", "accept reports the subscribe call as answered before the response is handed to the connection: if the connection queue is full and the handler abandons accept(), the close task sends a closing notification for a subscription whose accept response was never sent", where(o))
         # what is sent is the response
         lv = tr.origins(acc, s.args[1])
         R.check(any(l.kind == "call" and re.search(r"MethodResponse::", l.detail["callee"] or "") for l in lv), "C04.R1", "accept:sends-the-response", "what accept enqueues is the subscribe response", "accept enqueues %s" % [flow.leaf_str(l) for l in lv], where(s))
